@@ -103,6 +103,10 @@ def solve(A: LinearOperator, B: torch.Tensor, E: Union[torch.Tensor, None] = Non
             is_hermit = A.is_hermitian and (M is None or M.is_hermitian)
             method = "cg" if is_hermit else "bicgstab"
 
+    # method names are case-insensitive
+    if isinstance(method, str):
+        method = method.lower()
+
     if method == "exactsolve":
         return exactsolve(A, B, E, M)
     else:
